@@ -69,6 +69,17 @@ type FS struct {
 	// (read-only opens are made by the driver, which fault() leaves alone)
 	FailOpenAt int
 	opens      int
+	null       *os.File // descriptor handed out by an injected mmap-fail
+}
+
+// Cleanup releases what the simulated disk itself holds.
+//
+//go:norace
+func (fs *FS) Cleanup() {
+	if fs.null != nil {
+		fs.null.Close()
+		fs.null = nil
+	}
 }
 
 //go:norace
@@ -160,6 +171,8 @@ func faultClass(kind string) string {
 		return "remove"
 	case "readdir-eio":
 		return "readdir"
+	case "mmap-fail":
+		return "osfile"
 	}
 	return kind
 }
@@ -244,7 +257,23 @@ func (fs *FS) OpenFile(name string, flag int, perm os.FileMode) (moss.File, erro
 }
 
 //go:norace
-func (f *simFile) OsFile() *os.File { return f.f }
+func (f *simFile) OsFile() *os.File {
+	// moss asks for the descriptor to Stat and mmap a freshly written segment
+	// (doLoadSegments).  Fault kind mmap-fail: the mapping cannot be set up -
+	// the load sees a descriptor of an empty file, finds it too short for
+	// the segment and fails; nothing is ever read or mapped through it.
+	if flt := f.fs.fault("osfile"); flt != nil {
+		f.fs.rec(FileOp{Kind: "OSFILE", File: f.name, Err: "ENOMEM", Fault: "mmap-fail"})
+		f.fs.fired("mmap-fail")
+		if f.fs.null == nil {
+			f.fs.null, _ = os.Open("/dev/null")
+		}
+		if f.fs.null != nil {
+			return f.fs.null
+		}
+	}
+	return f.f
+}
 
 //go:norace
 func (f *simFile) ReadAt(p []byte, off int64) (int, error) {
